@@ -447,58 +447,93 @@ def _locals_read(x, out):
 
 def returns_carry_sign(rep, F, rule='BITFIELD'):
     """Every definition of the return value of parse_from_fNN (and its subnormal sibling) that depends on the float
-    depends on a value of type Sign, or hands the float itself to another converter of this crate (whose own sign
-    decision is checked above).  Backward data dependence over the MIR body, flow- and field-insensitive: the returns
-    that do not depend on the float at all (the +-0 shortcut) are exempt.  A shortcut return built from the mantissa
-    alone loses the sign of every negative input it serves."""
+    depends on a value of type Sign, or hands the whole float (the parameter itself or its to_bits(), through copies
+    only) to another function of this crate that returns the decimal - which is then checked by the same clause with
+    that parameter in the float's place.  Backward data dependence over the MIR body, flow- and field-insensitive: the
+    returns that do not depend on the float at all (the +-0 shortcut) are exempt.  A shortcut return built from the
+    mantissa alone loses the sign of every negative input it serves."""
     n = 0
+    work_fns = []
     for W in (32, 64):
         for nm in ('parsing::parse_from_f%d' % W, 'parsing::parse_from_f%d_subnormal' % W):
             fn = F.fns.get(nm)
-            if fn is None:
-                continue
-            defs = {}          # local -> list of (reads:set, delegates:bool)
-            for b, st in fn.stmts():
-                r = set()
-                _locals_read(st['rv'], r)
-                defs.setdefault(st['lhs']['l'], []).append((r, False, st.get('loc', {}).get('line')))
-            for b, t in fn.calls():
-                r = set()
-                _locals_read(t['args'], r)
-                res = cres(t) or ''
-                deleg = bool(re.search(r'(^|::)parsing::parse_from_f(32|64)(_subnormal)?$', TB._plain(res))) and any(op_local(a) is not None and fn.ty(op_local(a)) in ('f32', 'f64') for a in t['args'])
-                if t.get('dest') and 'l' in t['dest']:
-                    defs.setdefault(t['dest']['l'], []).append((r, deleg, t['loc']['line']))
-            floats = {i for i in range(1, fn.argc + 1) if fn.ty(i) in ('f32', 'f64')}
-            bad = None
-            cnt = 0
-            for reads, deleg, line in defs.get(0, []):
-                seen = set()
-                work = list(reads)
-                has_sign = False
-                dep_float = False
-                delegated = deleg
-                while work:
-                    l = work.pop()
-                    if l in seen:
-                        continue
-                    seen.add(l)
-                    if l in floats:
-                        dep_float = True
-                    if re.search(r'(^|::)Sign$', fn.ty(l).lstrip('&')):
-                        has_sign = True
-                    for r2, d2, _ln in defs.get(l, []):
-                        delegated = delegated or d2
-                        work.extend(r2)
-                cnt += 1
-                if dep_float and not has_sign and not delegated:
-                    bad = line
-            if not cnt:
-                continue
-            n += 1
-            key = fn.key + ':every-return-carries-the-sign'
-            if bad is not None:
-                rep.violation(rule, key, 'a return value computed from the float does not depend on any Sign value: every negative input served by this return comes out positive', fn.where(bad))
-            else:
-                rep.ok(rule, key, '%d definition(s) of the return value: each depends on a Sign value, delegates the float to a sibling converter, or does not depend on the float' % cnt, fn.where())
+            if fn is not None:
+                work_fns.append((fn, {i for i in range(1, fn.argc + 1) if fn.ty(i) in ('f32', 'f64')}))
+    done = set()
+    while work_fns:
+        fn, floats = work_fns.pop(0)
+        if fn.key in done or not floats:
+            continue
+        done.add(fn.key)
+        defs = {}          # local -> list of (reads:set, delegates:bool, line)
+        sdefs = {}         # local -> list of ('copy', src local) | ('bits', src local) | ('other',)
+        for b, st in fn.stmts():
+            r = set()
+            _locals_read(st['rv'], r)
+            defs.setdefault(st['lhs']['l'], []).append((r, False, st.get('loc', {}).get('line')))
+            rv = st['rv']
+            src = op_local(rv['op']) if rv.get('r') == 'use' and isinstance(rv.get('op'), dict) and rv['op'].get('k') in ('copy', 'move') else None
+            if not st['lhs']['p']:
+                sdefs.setdefault(st['lhs']['l'], []).append(('copy', src) if src is not None else ('other',))
+
+        def whole(l, depth=6):
+            """local l holds the whole float (parameter, copy of it, or its to_bits())"""
+            if l in floats:
+                return True
+            ds = sdefs.get(l)
+            if not ds or depth <= 0:
+                return False
+            return all(d[0] in ('copy', 'bits') and whole(d[1], depth - 1) for d in ds)
+
+        calls = list(fn.calls())
+        for b, t in calls:
+            res = TB._plain(cres(t) or '')
+            if t.get('dest') and 'l' in t['dest'] and not t['dest'].get('p') and re.search(r'::to_bits$', res) and len(t['args']) == 1 and op_local(t['args'][0]) is not None:
+                sdefs.setdefault(t['dest']['l'], []).append(('bits', op_local(t['args'][0])))
+            elif t.get('dest') and 'l' in t['dest'] and not t['dest'].get('p'):
+                sdefs.setdefault(t['dest']['l'], []).append(('other',))
+        for b, t in calls:
+            r = set()
+            _locals_read(t['args'], r)
+            callee = F.fns.get(cres(t) or '') or F.fns.get(TB._plain(cres(t) or ''))
+            deleg = False
+            if callee is not None and not callee.is_closure and re.search(r'(^|::)BigDecimal$', strip_lt(callee.locals[0])):
+                idx = [i for i, a in enumerate(t['args'], 1) if op_local(a) is not None and whole(op_local(a))]
+                if idx:
+                    deleg = True
+                    work_fns.append((callee, set(idx)))
+            if t.get('dest') and 'l' in t['dest']:
+                defs.setdefault(t['dest']['l'], []).append((r, deleg, t['loc']['line']))
+        bad = None
+        cnt = 0
+        for reads, deleg, line in defs.get(0, []):
+            seen = set()
+            work = list(reads)
+            has_sign = False
+            dep_float = False
+            delegated = deleg
+            while work:
+                l = work.pop()
+                if l in seen:
+                    continue
+                seen.add(l)
+                if l in floats:
+                    dep_float = True
+                if re.search(r'(^|::)Sign$', fn.ty(l).lstrip('&')):
+                    has_sign = True
+                for r2, d2, _ln in defs.get(l, []):
+                    delegated = delegated or d2
+                    work.extend(r2)
+            cnt += 1
+            if dep_float and not has_sign and not delegated:
+                bad = line
+        if not cnt:
+            continue
+        n += 1
+        rep.add_functions([fn.name])
+        key = fn.key + ':every-return-carries-the-sign'
+        if bad is not None:
+            rep.violation(rule, key, 'a return value computed from the float does not depend on any Sign value: every negative input served by this return comes out positive', fn.where(bad))
+        else:
+            rep.ok(rule, key, '%d definition(s) of the return value: each depends on a Sign value, delegates the whole float to a converter of this crate (checked in turn), or does not depend on the float' % cnt, fn.where())
     return n
